@@ -11,7 +11,7 @@
 From Coq Require Import String Ascii List Bool Arith ZArith.
 From LC Require Import MathDefs ValidDefs ValidSpec ValidLeaf ValidMathProofs ValidCompProofs ValidUnitsProofs ValidProofs
   ValidCitedProofs ValidCited2Proofs ValidCycleProofs ValidIdsProofs ValidWitness ValidXmlName ValidImportProofs
-  ValidNamesProofs ValidIdsEnumProofs ValidSoundProofs ValidCompleteProofs.
+  ValidNamesProofs ValidIdsEnumProofs ValidSoundProofs ValidCompleteProofs ValidRound7Proofs.
 Import ListNotations.
 Local Open Scope string_scope.
 Local Open Scope list_scope.
@@ -404,6 +404,27 @@ Theorem C04_validate_complete_current_partial : forall ueq W, Repr (model_at W 0
   WF current_fixes ueq W -> IdsOK all_fixed W -> OrdersOK current_fixes W -> validate current_fixes ueq false W = [].
 Proof. exact ValidWitness.validate_complete_current. Qed.
 Print Assumptions C04_validate_complete_current_partial.
+
+(** Proof depth round 7: composition laws of the list passes over ++.  The loop over the variables of a component splits
+    at any point (the second half is checked against the names already seen); validateMath is a homomorphism over roots
+    that are all <math>, and the first root that is not <math> ends the pass (nothing after it is looked at). *)
+Theorem C04_validate_variables_app : forall m c a b prev,
+  validate_variables m c prev (a ++ b)
+  = validate_variables m c prev a ++ validate_variables m c (prev ++ map v_name a) b.
+Proof. exact ValidRound7Proofs.validate_variables_app. Qed.
+Print Assumptions C04_validate_variables_app.
+
+Theorem C04_validate_math_app : forall q vars units a b,
+  Forall (fun d => is_mathml_el "math" d = true) a ->
+  validate_math q vars units (a ++ b) = validate_math q vars units a ++ validate_math q vars units b.
+Proof. exact ValidRound7Proofs.validate_math_app. Qed.
+Print Assumptions C04_validate_math_app.
+
+Theorem C04_validate_math_stops : forall q vars units a d b,
+  Forall (fun d => is_mathml_el "math" d = true) a -> is_mathml_el "math" d = false ->
+  validate_math q vars units (a ++ d :: b) = validate_math q vars units a ++ [V_MATH_ELEMENT].
+Proof. exact ValidRound7Proofs.validate_math_stops. Qed.
+Print Assumptions C04_validate_math_stops.
 
 (* NOT PROVED:
    - the declarative form of the reset-order pass (OrdersOK current_fixes W <-> ValidSpec.ResetOrdersUnique (model_at W 0)): it needs
